@@ -33,7 +33,30 @@ DP == {Pipe(<<V("a"), V("f")>>), Pipe(<<V("a"), V("f"), V("g")>>)}
       \cup {Bin(o, V("a"), Pipe(<<V("b"), V("f")>>)) : o \in Ops}
       \cup {Pipe(<<V("a"), Pipe(<<V("b"), V("f")>>)>>), Pipe(<<Pipe(<<V("a"), V("f")>>), V("g")>>), Un("!", Pipe(<<V("a"), V("f")>>))}
 
-Universe == Atoms \cup U1 \cup D1 \cup D2 \cup D3 \cup DU \cup DP
+\* calls, constructors, captures: every labelling of <= 2 arguments (<= 3 for the all-labelled / none-labelled cases), at most one hole,
+\* punnable values, operator expressions and nested calls as arguments, calls as operands and as pipeline stages
+Vals == {V("x"), V("a"), V("b"), Hole}
+Holes(args) == Cardinality({i \in 1..Len(args) : args[i].v = Hole})
+ArgSeqs(n, labels) == {s \in [1..n -> {Arg(l, v) : l \in labels, v \in Vals}] :
+                          /\ Holes(s) <= 1
+                          /\ \A i, j \in 1..n : (i # j /\ s[i].l # "") => s[i].l # s[j].l}
+FnArgs == UNION {ArgSeqs(n, {"", "a", "b"}) : n \in 0..2}
+ConsArgs == UNION {ArgSeqs(n, {""}) : n \in 0..2} \cup UNION {ArgSeqs(n, {"a", "b"}) : n \in 1..2}
+DC == {Call("foo", a) : a \in FnArgs} \cup {Call("Foo", a) : a \in ConsArgs}
+      \cup {Call("Foo", <<Arg("a", V("x")), Arg("b", Hole), Arg("c", V("c"))>>), Call("Foo", <<Arg("", V("x")), Arg("", Hole), Arg("", V("a"))>>),
+            Call("foo", <<Arg("a", Hole), Arg("", V("x")), Arg("b", V("b"))>>)}
+\* compound arguments and positions
+DCN == {Call(f, <<Arg(l, Bin(o, V("x"), V("y"))), Arg(l2, v)>>) : f \in {"foo"}, l \in {"", "a"}, l2 \in {"", "b"}, o \in {"+", "&&", "=="}, v \in {V("z"), Hole}}
+       \cup {Call("Foo", <<Arg("a", Bin(o, V("x"), V("y"))), Arg("b", v)>>) : o \in {"+", "||"}, v \in {V("b"), Hole}}
+       \cup {Call("foo", <<Arg("", Call("Foo", <<Arg("a", Hole), Arg("b", V("b"))>>)), Arg("", V("x"))>>),
+             Call("Foo", <<Arg("a", Call("bar", <<Arg("", Hole), Arg("c", V("x"))>>)), Arg("b", V("y"))>>)}
+       \cup {Bin(o, Call("foo", <<Arg("", V("x"))>>), Call("Foo", <<Arg("a", V("a"))>>)) : o \in {"+", "==", "&&"}}
+       \cup {Un("!", Call("foo", <<Arg("a", V("x"))>>))}
+\* as pipeline stages: a stage with a labelled hole keeps it; (an unlabelled first hole is sugar and is not in the universe)
+DCP == {Pipe(<<V("x"), Call("foo", a)>>) : a \in {s \in FnArgs : Len(s) >= 1 /\ ~(s[1].l = "" /\ s[1].v = Hole) /\ Holes(s) = 1}}
+       \cup {Pipe(<<V("x"), Call("Foo", a)>>) : a \in {s \in ConsArgs : Len(s) >= 1 /\ ~(s[1].l = "" /\ s[1].v = Hole) /\ Holes(s) = 1}}
+
+Universe == Atoms \cup U1 \cup D1 \cup D2 \cup D3 \cup DU \cup DP \cup DC \cup DCN \cup DCP
 
 VARIABLES e
 Init == e \in Universe
@@ -45,6 +68,7 @@ RECURSIVE Norm(_)
 Norm(t) ==
     CASE t.k = "un"   -> Un(t.op, Norm(t.e))
       [] t.k = "bin"  -> Bin(t.op, Norm(t.l), Norm(t.r))
+      [] t.k = "call" -> Call(t.f, [i \in 1..Len(t.args) |-> Arg(t.args[i].l, Norm(t.args[i].v))])
       [] t.k = "pipe" -> LET es == [i \in 1..Len(t.es) |-> Norm(t.es[i])] IN
                          IF es[1].k = "pipe" THEN Pipe(es[1].es \o SubSeq(es, 2, Len(es))) ELSE Pipe(es)
       [] OTHER -> t
